@@ -38,6 +38,17 @@ def check_C08(tier):
     res.evaluations += run_vh(["names", "--in", visited, "--tier", tier, "--maxrun", "20000"], trace, timeout=7200)
     res.evaluations += 128 ** 4 + (2 ** 32 if tier == "thorough" else 0)
     validate_dec_trace(res, trace, "C08", module="Trace_Names", descriptor=names_descriptor)
+    # the same names at the level of the event builder: a good TRG bank plus one bank of that name with junk
+    # bytes must build exactly when the name is a documented ignored bank (B.., TRBA, MCVX); judged by the
+    # name rules inside MainEvent.tla
+    import p_phys
+    p_phys.full_config()
+    trace_e = os.path.join(BUILD, "traces", "C08_events.ndjson")
+    res.evaluations += run_vh(["evt", "--names", visited, "--names-stride", "60" if tier == "quick" else "3", "--n", "0",
+                               "--stride", "0", "--seed", str(seed())], trace_e, timeout=7200)
+    for k, part in enumerate(split_file(trace_e, 400)):
+        validate_dec_trace(res, part, "C08_ev_%d" % k, module="Trace_MainEvent", descriptor=p_phys.evt_descriptor)
+    res.extra["event_level_names"] = count_lines(trace_e)
     n = 0
     with open(trace) as f:
         for line in f:
